@@ -523,7 +523,10 @@ func (f *FaceModule) destroy(interest *spec.Interest, pitToken []byte, inFace ui
 		core.LogInfo(f, "Ignoring attempt to delete non-existent face with FaceID=", *params.FaceId)
 	}
 
-	response = makeControlResponse(200, "OK", params.ToDict())
+	// Echo the FaceId. The request cannot be echoed through params.ToDict(): a Strategy
+	// field comes out as a map, which makeControlResponse cannot convert back (it
+	// returns nil, and sendResponse would dereference it).
+	response = makeControlResponse(200, "OK", map[string]any{"FaceId": *params.FaceId})
 	f.manager.sendResponse(response, interest, pitToken, inFace)
 }
 
